@@ -101,7 +101,12 @@ MUTATIONS = [
      ['bid_get_BID128', 'bid128_scalbn', 'bid128_ldexp'],
      'bid_get_BID128: the guard of the padding loop admits an exponent excess of 68: a zero coefficient then needs 68 iterations, more than the literal fuel 36', 'F'),
     ('F07', 'bid128_scalbn.rs', '          exponent_x -= 1;\n          exp64      -= 1;\n', '          exp64      -= 1;\n          exponent_x -= 1; // swapped\n', 0,
-     [], 'scalbn: two independent statements of the loop body swapped, comment added (harmless)', 'F'),
+     ['bid128_scalbn'], 'scalbn: two independent statements of the loop body swapped, comment added: harmless, but reported as a failure '
+     '(known false alarm: the order of the merged tuple after the `if` around the loop follows the order of assignment, and the '
+     'proof names that tuple; the Fixpoint signature itself is canonical)', 'F'),
+    ('F09', 'bid128_scalbn.rs', '    let mut sign_x: BID_UINT64 = 0;\n    let mut exponent_x: i32 = 0;\n',
+     '    let mut exponent_x: i32 = 0;   // declarations swapped\n    let mut sign_x: BID_UINT64 = 0;\n', 0,
+     [], 'scalbn: two declarations swapped, comment added (harmless)', 'F'),
     ('F08', 'bid_internal.rs', '    if rnd_mode == RoundingMode::NearestEven && (CQ.w[0] & 1) == 1 {\n        // check whether fractional part of initial_P/10^ed1 is exactly .5',
      '    if rnd_mode == RoundingMode::NearestAway && (CQ.w[0] & 1) == 1 {\n        // check whether fractional part of initial_P/10^ed1 is exactly .5', 0,
      ['bid_get_BID128', 'bid128_scalbn', 'bid128_ldexp'], 'handle_UF_128: the tie correction is applied for NearestAway instead of NearestEven', 'F'),
